@@ -288,6 +288,20 @@ func (d *PathDecoder) decodeReferenceTargetsForAttribute(attr *hcl.Attribute, at
 	ctx := context.Background()
 
 	expr := d.newExpression(attr.Expr, attrSchema.Constraint)
+	if _, ok := expr.(ReferenceTargetsExpression); !ok && attrSchema.Address != nil && attrSchema.Address.AsReference {
+		// the attribute is addressable as a reference whatever its value's constraint
+		// (keyword, type declaration, literal value, ...)
+		if attrAddr, ok := resolveAttributeAddress(attr, attrSchema.Address.Steps); ok {
+			refs = append(refs, reference.Target{
+				Addr:          attrAddr,
+				ScopeId:       attrSchema.Address.ScopeId,
+				DefRangePtr:   attr.NameRange.Ptr(),
+				RangePtr:      attr.Range.Ptr(),
+				Name:          attrSchema.Address.FriendlyName,
+				NestedTargets: reference.Targets{},
+			})
+		}
+	}
 	if eType, ok := expr.(ReferenceTargetsExpression); ok {
 		var targetCtx *TargetContext
 		if attrSchema.Address != nil {
